@@ -179,9 +179,10 @@ func c18Oracle(priv, rxf bool, table map[string]string, rxs [][2]string, cwd, fi
 // ---- running the implementation ----
 
 type c18Exec struct {
-	snap    *slog.VerifRegistry
-	origCwd string
-	home    string
+	snap      *slog.VerifRegistry
+	origCwd   string
+	home      string
+	resetDiff string // set by apply: what slog.Reset() did to the mapping tables (should be nothing)
 }
 
 func c18Call(f func() string) (out string, panicked any) {
@@ -198,6 +199,16 @@ func c18Call(f func() string) (out string, panicked any) {
 func (x *c18Exec) apply(sc c18Scenario) (init map[string]string, table map[string]string, rxs [][2]string) {
 	slog.VerifRestore(x.snap)
 	must(os.Chdir(sc.Cwd))
+	x.resetDiff = ""
+	if len(sc.Ops)%2 == 0 {
+		// every other scenario: the package-level Reset (default level and flags back to the factory settings)
+		// comes first; it must leave the two mapping tables as they are
+		t0, r0 := c18CanonTable(slog.VerifKnownPaths()), fmt.Sprint(slog.VerifKnownPathRegexps())
+		slog.Reset()
+		if t1, r1 := c18CanonTable(slog.VerifKnownPaths()), fmt.Sprint(slog.VerifKnownPathRegexps()); t0 != t1 || r0 != r1 {
+			x.resetDiff = fmt.Sprintf("slog.Reset() changed the mapping tables: known paths {%s} -> {%s}, regexps %s -> %s", t0, t1, r0, r1)
+		}
+	}
 	if sc.FlagAPI == "set" {
 		f := slog.GetFlags() &^ (slog.Lprivacypath | slog.Lprivacypathregexp)
 		if sc.Priv {
@@ -284,6 +295,9 @@ func c18CanonTable(m map[string]string) string {
 func (x *c18Exec) run(r *Run, sc c18Scenario, paths []string, reps int, kind string) {
 	init, table, rxs := x.apply(sc)
 	rep0 := c18Replay{Sc: sc, Table: table, Regexps: rxs}
+	if x.resetDiff != "" {
+		r.Fail("C18/reset-touched-tables", x.resetDiff, rep0)
+	}
 	// the table operations: the implementation holds what the statement's map holds
 	got := slog.VerifKnownPaths()
 	if c18CanonTable(got) != c18CanonTable(table) {
